@@ -3,7 +3,7 @@ SRC = ['repo:src/Variant.cpp', 'repo:src/String.cpp', 'repo:src/Memory.cpp']
 UNITS = [dict(
     name='variant', harness='harness/c07_variant.cpp', sources=SRC,
     defines={'quick': {'VF_K': 2}, 'thorough': {'VF_K': 3}},
-    entries=['scalars', 'copies', 'nested_assign'],
+    entries=['scalars', 'copies', 'nested_assign', 'self_nesting'],
     opts={'all': {'unwind': 64}},
     split={'quick': 12, 'thorough': 16},
     budget={'quick': 280, 'thorough': 2600},
